@@ -647,7 +647,25 @@ def module_env(prog: Any, module: Any, base: dict[str, Any], interp_kwargs: dict
                         dfl = None
                         break
             try:
-                env[st.name] = collections.namedtuple(st.name, flds, defaults=dfl or None)
+                nt_base = collections.namedtuple(st.name, flds, defaults=dfl or None)
+                members: dict[str, Any] = {}
+                for mdef in st.body:  # its methods, interpreted from the source when they are called
+                    if isinstance(mdef, ast.FunctionDef):
+                        decos = [unparse(d_) for d_ in mdef.decorator_list]
+                        def _mk(node=mdef):
+                            def _call(*a_, **k_):
+                                return Interp(module_env(prog, module, base, kw), **kw)._make_function(node)(*a_, **k_)
+                            return _call
+                        fn_ = _mk()
+                        if "staticmethod" in decos:
+                            members[mdef.name] = staticmethod(fn_)
+                        elif "classmethod" in decos:
+                            members[mdef.name] = classmethod(lambda c_, *a_, _f=fn_, **k_: _f(c_, *a_, **k_))
+                        elif "property" in decos:
+                            members[mdef.name] = property(lambda s_, _f=fn_: _f(s_))
+                        else:
+                            members[mdef.name] = (lambda _f: (lambda s_, *a_, **k_: _f(s_, *a_, **k_)))(fn_)
+                env[st.name] = type(st.name, (nt_base,), dict(members, __slots__=())) if members else nt_base
                 continue
             except Exception:
                 pass
